@@ -31,6 +31,23 @@ def all_options():
     return out
 
 
+def _attach_functions(m2, fns, main_fn):
+    """append the FunctionProtos of the other script functions of the generated module (and their opset imports)"""
+    from onnx import helper as oh_
+    have = {(f_.domain, f_.name) for f_ in m2.functions}
+    for f_ in fns:
+        if f_ is not main_fn:
+            fp_ = f_.to_function_proto()
+            if (fp_.domain, fp_.name) not in have:
+                have.add((fp_.domain, fp_.name))
+                m2.functions.append(fp_)
+    doms_ = {o.domain for o in m2.opset_import}
+    for fp_ in m2.functions:
+        if fp_.domain not in doms_:
+            doms_.add(fp_.domain)
+            m2.opset_import.append(oh_.make_opsetid(fp_.domain, 1))
+
+
 def _worker(payload):
     name, mb, spec, opts = payload
     from onnxscript.backend import onnx_export
@@ -101,6 +118,12 @@ def _worker(payload):
                 rec["solver"] = stats.as_dict()
                 return rec
             m2 = mk(*args)
+            if mp.functions:
+                from vp.symonnx import wellformed as W_
+                unresolved = W_.check_calls(m2)
+                if unresolved:
+                    rec["functions_not_reattached"] = unresolved[0]
+                    _attach_functions(m2, [v for v in vars(mod).values() if hasattr(v, "to_function_proto") and hasattr(v, "function_ir")], None)
         except Exception as e:  # noqa: BLE001
             rec.update(verdict="decoration_failed", stage="make_model", detail=f"{type(e).__name__}: {str(e)[:200]}")
             rec["solver"] = stats.as_dict()
@@ -115,6 +138,15 @@ def _worker(payload):
             return rec
         try:
             m2 = fn.to_model_proto()
+            if mp.functions:
+                from vp.symonnx import wellformed as W_
+                unresolved = W_.check_calls(m2)
+                if unresolved:
+                    # the generated source calls model-local functions through their Opset object, so the regenerated script
+                    # function does not know them as callees: reported once as a side finding; the comparison goes on with the
+                    # FunctionProtos of the other generated script functions appended by hand, so that their bodies are still compared
+                    rec["functions_not_reattached"] = unresolved[0]
+                    _attach_functions(m2, fns, fn)
         except Exception as e:  # noqa: BLE001
             rec.update(verdict="export_of_roundtrip_failed", stage="to_model_proto", detail=f"{type(e).__name__}: {str(e)[:200]}")
             rec["solver"] = stats.as_dict()
@@ -378,6 +410,8 @@ def main(tier: str, only=None) -> int:
                 continue
             if m.get("detail_contains") and m["detail_contains"] not in (r.get("detail") or ""):
                 continue
+            if m.get("model_contains") and not any(mc in r["model"] for mc in m["model_contains"]):
+                continue
             if m.get("initializer_input") and not r.get("has_initializer_input"):
                 continue
             if m.get("unbound_is_function_attribute") and not any(
@@ -395,6 +429,10 @@ def main(tier: str, only=None) -> int:
         counts[r["verdict"]] = counts.get(r["verdict"], 0) + 1
         for k, v in (r.get("solver") or {}).items():
             solver[k] = round(solver[k] + v, 3)
+        if r.get("functions_not_reattached"):
+            counts["functions_not_reattached"] = counts.get("functions_not_reattached", 0) + 1
+            r_side = dict(r, verdict="functions_not_reattached", detail=r["functions_not_reattached"])
+            report(r_side, "functions_not_reattached", "to_model_proto() of the regenerated script function: " + r["functions_not_reattached"])
         if r["verdict"] in ("export_raised", "invalid_python", "decoration_failed", "export_of_roundtrip_failed", "signature_changed", "malformed"):
             report(r, r["verdict"], r["detail"])
         elif r["verdict"] == "cex":
